@@ -61,6 +61,7 @@ structure Call where
   evs   : List Ev                  -- the same as atomic events (for the Spec trace)
   out   : Option (List CheckResult)  -- `some` = this is a View call and this is what it returned
   label : String
+  agreed : List CheckResult := []  -- hook: the agreed performables of the outcome (coverage tags only)
   uid   : Nat := 0                 -- identity within the history
   pred  : Option Nat := none       -- `uid` of a call that must be linearized first (program order inside one
                                    -- PostProcess: one `Add` call — one critical section — per eligible result)
@@ -96,7 +97,7 @@ def mkCall (ttl : Nat) (tab : Array CheckResult) (o : SOp) (now inv res : Nat) (
   | "rm" => pure { base with apply := fun s => remove s o.ids, evs := o.ids.map (Ev.remove now) }
   | "hook" =>
     let rs ← pick tab o.rs
-    pure { base with apply := fun s => runHook s rs, evs := rs.map (fun r => Ev.remove now r.workID) }
+    pure { base with apply := fun s => runHook s rs, evs := rs.map (fun r => Ev.remove now r.workID), agreed := rs }
   | "view" => pure { base with out := some (← viewOf tab view) }
   | k => throw s!"unknown op {k}"
 
@@ -135,14 +136,23 @@ def build (ttl gci start : Nat) (tab : Array CheckResult) (ops : List Op) (impl 
     now := now + o.dt
     let ranAt ← natF j "at"
     if ranAt ≠ now ∧ clockDiff = "" then clockDiff := s!"clock: operation expected at {now} ns ran at {ranAt} ns"
-    -- a flow call lasts `delay`: its adds happen when the check pipeline answers
-    now := now + o.sop.delay
-    let (tk, k') := ticks start gci nextK now 100000
+    let err ← asStr (fieldD j "err" (.str ""))
+    if err ≠ "" ∧ clockDiff = "" then clockDiff := s!"operation {o.sop.k} at {now} ns: {err}"
+    -- the instant of the call's effect.  A flow call lasts `delay`: its adds happen when the check pipeline answers.
+    -- A node-level `stage` lasts `delay` (one interval of the log flow's ticker): its adds happen at the tick in
+    -- between, whose instant the harness observed at the log provider (`addAt`).
+    let mut callAt := now + o.sop.delay
+    if o.sop.k == "stage" ∧ !o.sop.rs.isEmpty then
+      let addAt ← asNat (fieldD j "addAt" (.num 0))
+      if now < addAt ∧ addAt ≤ now + o.sop.delay then callAt := addAt
+      else if clockDiff = "" then
+        clockDiff := s!"stage at {now} ns: the log flow took the payloads at {addAt} ns, not within the next {o.sop.delay} ns"
+    let (tk, k') := ticks start gci nextK callAt 100000
     nextK := k'
     for t in tk do
       calls := calls.push (gcCall ttl t stamp)
       stamp := stamp + 2
-      if t = now then onTick := true
+      if t = callAt then onTick := true
     if o.sop.k == "burst" then
       hasBurst := true
       let binv ← natF j "inv"
@@ -165,19 +175,34 @@ def build (ttl gci start : Nat) (tab : Array CheckResult) (ops : List Op) (impl 
           let mut prev : Option Nat := none
           for i in elig do
             uid := uid + 1
-            let c1 ← mkCall ttl tab { so with rs := [i] } now (stamp + (ci - binv)) (stamp + (cr - binv)) .null s!"g{th}.{ix}:padd[{i}]"
+            let c1 ← mkCall ttl tab { so with rs := [i] } callAt (stamp + (ci - binv)) (stamp + (cr - binv)) .null s!"g{th}.{ix}:padd[{i}]"
             calls := calls.push { c1 with uid := uid, pred := prev }
             prev := some uid
         else
           uid := uid + 1
-          let c1 ← mkCall ttl tab so now (stamp + (ci - binv)) (stamp + (cr - binv)) (fieldD c "view" .null) s!"g{th}.{ix}:{so.k}"
+          let c1 ← mkCall ttl tab so callAt (stamp + (ci - binv)) (stamp + (cr - binv)) (fieldD c "view" .null) s!"g{th}.{ix}:{so.k}"
           calls := calls.push { c1 with uid := uid }
       stamp := stamp + (bres - binv) + 1
+    else if o.sop.k == "obs" then
+      -- Observation(seqNr, previous outcome): RemoveFromStagingHook on the outcome's agreed performables, then the
+      -- store's view (through AddFromStagingHook, below the performables limit, nothing in flight) as the observation's
+      -- performables.  ctx "first": no previous outcome.
+      if o.sop.ctx != "first" then
+        uid := uid + 1
+        let c1 ← mkCall ttl tab { o.sop with k := "hook" } callAt stamp (stamp + 1) .null "obs:hook"
+        calls := calls.push { c1 with uid := uid }
+        stamp := stamp + 2
+      uid := uid + 1
+      let c2 ← mkCall ttl tab { o.sop with k := "view" } callAt stamp (stamp + 1) (fieldD j "view" .null) "obs:view"
+      calls := calls.push { c2 with uid := uid }
+      stamp := stamp + 2
     else
       uid := uid + 1
-      let c1 ← mkCall ttl tab o.sop now stamp (stamp + 1) (fieldD j "view" .null) o.sop.k
+      let so := if o.sop.k == "stage" then { o.sop with k := "padd" } else o.sop
+      let c1 ← mkCall ttl tab so callAt stamp (stamp + 1) (fieldD j "view" .null) o.sop.k
       calls := calls.push { c1 with uid := uid }
       stamp := stamp + 2
+    now := now + o.sop.delay
   pure { calls := calls.qsort (fun a b => a.inv < b.inv), hasBurst, clockDiff, onTick }
 
 /-- `some s'` if the call can be linearized next from `s` -/
@@ -324,6 +349,27 @@ def tagsOf (ttl : Nat) : Store → List Ev → List String → List String
         (if out.length ≥ 2 then ["view-multi"] else if out.length = 1 then ["view-single"] else ["view-empty"]) ++ acc
     tagsOf ttl (step ttl s e) rest acc'
 
+/-- what the outcomes of a history did, along the chosen order: how many LIVE staged results of ONE upkeep a single
+outcome took out (several logs of a log-trigger upkeep agreed in the same round) -/
+def hookTags (ttl : Nat) : Store → List Call → List String → List String
+  | _, [], acc => acc
+  | s, c :: rest, acc =>
+    let acc' :=
+      if c.agreed.isEmpty then acc
+      else
+        let hit := c.agreed.filter fun r => match get s r.workID with
+          | some v => !expired ttl c.now v
+          | none => false
+        let pairs := (hit.map fun r => (r.upkeepID, r.workID)).eraseDups
+        let most := (pairs.map fun p => (pairs.filter (·.1 == p.1)).length).foldl max 0
+        let upk := (pairs.map (·.1)).eraseDups.length
+        (if most ≥ 2 then ["hook-removes-several-of-one-upkeep"] else []) ++
+        (if most ≥ 3 then ["hook-removes>=3-of-one-upkeep"] else []) ++
+        (if most ≥ 10 then ["hook-removes-10-of-one-upkeep"] else []) ++
+        (if most ≥ 2 ∧ upk ≥ 2 then ["hook-several-of-one-upkeep-mixed-with-others"] else []) ++
+        (if hit.length < c.agreed.length then ["hook-with-unstaged-result"] else []) ++ acc
+    hookTags ttl (match c.out with | some _ => s | none => c.apply s) rest acc'
+
 def overlaps (calls : Array Call) : Bool :=
   calls.any fun a => calls.any fun b =>
     decide (a.inv < b.inv) && decide (b.inv < a.res)
@@ -388,7 +434,9 @@ def handle (input impl : Json) : R Reply := do
       (if allS.any (fun o => o.k == "flow") then ["flow"] else []) ++
       (if allS.any (fun o => o.k == "flow" && decide (o.delay > Gen.observationProcessLimitNs) && decide (nElig o > 0))
         then ["flow-answers-after-limit"] else [])
-    let tags := (tagsOf ttl [] mtrace []).eraseDups ++ extra ++ opTags ++
+    let tags := (tagsOf ttl [] mtrace []).eraseDups ++ extra ++ opTags ++ (hookTags ttl [] order []).eraseDups ++
+      (if fieldD input "kind" .null == Json.str "node" then ["node"] else []) ++
+      (if allS.any (fun o => o.k == "obs" && o.ctx == "first") then ["node-obs-without-outcome"] else []) ++
       (if b.onTick then ["op-on-gc-tick"] else []) ++
       (if !handedStrict ttl mtrace then ["dominated-then-expired"] else [])
     let agree' := agree && constDiff.isEmpty
